@@ -75,7 +75,7 @@ def gen_op(rng: random.Random, root, allow_fail: bool = False) -> dict | None:
     nodes = all_nodes(a)
     kind = rng.choice(['replace_expr', 'replace_expr', 'replace_expr', 'remove', 'put_slice_stmts', 'insert_stmt', 'append_stmt',
                        'cut', 'replace_stmt', 'put_slice_exprs', 'put_docstr', 'put_line_comment', 'attr_assign', 'attr_del',
-                       'view_set', 'view_del', 'replace_pattern', 'put_one', 'prepend_stmt'])
+                       'view_set', 'view_del', 'replace_pattern', 'put_one', 'prepend_stmt', 'replace_op', 'replace_op'])
     form = rng.choice(['src', 'src', 'fst', 'ast'])
     opts = rand_options(rng)
     op = {'kind': kind, 'form': form, 'options': opts}
@@ -87,6 +87,22 @@ def gen_op(rng: random.Random, root, allow_fail: bool = False) -> dict | None:
     if kind == 'replace_expr' and exprs:
         n = rng.choice(exprs)
         op.update(path=path_of(a, n), code=rng.choice(EXPRS))
+    elif kind == 'replace_op':
+        cands = [n for n in nodes if isinstance(n, (ast.BinOp, ast.BoolOp, ast.UnaryOp, ast.AugAssign, ast.Compare))]
+        if not cands:
+            return None
+        n = rng.choice(cands)
+        if isinstance(n, ast.BinOp):
+            code, fld, idx = rng.choice(['+', '-', '*', '/', '//', '%', '@', '**', '<<', '>>', '|', '&', '^']), 'op', None
+        elif isinstance(n, ast.AugAssign):
+            code, fld, idx = rng.choice(['+=', '-=', '*=', '/=', '**=', '>>=', '|=', '@=']), 'op', None
+        elif isinstance(n, ast.BoolOp):
+            code, fld, idx = rng.choice(['and', 'or']), 'op', None
+        elif isinstance(n, ast.UnaryOp):
+            code, fld, idx = rng.choice(['-', '+', '~', 'not']), 'op', None
+        else:
+            code, fld, idx = rng.choice(['<', '>', '==', '!=', '<=', '>=', 'is', 'is not', 'in', 'not in']), 'ops', rng.randrange(len(n.ops))
+        op.update(path=path_of(a, n), field=fld, idx=idx, code=code, form='src', via=rng.choice(['put', 'replace']))
     elif kind == 'replace_stmt' and stmts:
         n = rng.choice(stmts)
         op.update(path=path_of(a, n), code=rng.choice(STMTS))
@@ -235,6 +251,15 @@ def apply(root, op):
         code = make_code(op)
         if kind in ('replace_expr', 'replace_stmt', 'replace_pattern'):
             f.replace(code, **opts)
+        elif kind == 'replace_op':
+            if op['via'] == 'put':
+                if op['idx'] is None:
+                    f.put(code, op['field'], **opts)
+                else:
+                    f.put(code, op['idx'], op['field'], **opts)
+            else:
+                o = getattr(f, op['field'])
+                (o if op['idx'] is None else o[op['idx']]).replace(code, **opts)
         elif kind == 'remove':
             f.remove(**opts)
         elif kind == 'cut':
